@@ -64,7 +64,7 @@ def _classify(A: Analysis, fi, e: ast.expr) -> str:
         bt = A.res.type_of(base, fi) if base is not None else None
         if bt is not None and bt[0].endswith("version_index.Version"):
             return "VERSION"
-        owners = {f.cls.fq for f in A.prog.functions.values() if f.cls is not None and f.name == "commit_hash"}
+        owners = {f.cls.fq for f in A.prog.scan_functions if f.cls is not None and f.name == "commit_hash"}
         if owners == {"conductor.execution.version_index.Version"}:
             return "VERSION"  # the attribute exists on Version only
         return "VERSION?"
